@@ -16,29 +16,39 @@
      Events with und = TRUE lie outside the documented scheme (specific derivation under the
      generic level-1 key): a collision that involves them is drift only.
 
+   part "epoch": l1 events — GetLevel1Key at the source ("src") or destination ("dst") control service for
+     the explicit validity time t (whole seconds relative to an epoch start; epoch length d), interleaved
+     with prefetch requests (t = now + d) and `clean` events (DeleteExpired* with cut-off now), walking
+     across epoch boundaries (model: DRKeyEpoch.tla).
+     Monitor: ok => eb <= t < ee (the key of the epoch that contains the requested time: never a stale
+     key after the roll-over, never an early one), and one key per epoch / one epoch per key over the whole
+     history whichever route answered (derived, stored, fetched, re-fetched after cleaning).
+     Drift: epochs not of length d / not aligned, fetches and deletions that differ from DRKeyEpoch's stores.
+
    part "window": select events — FakeProvider.GetKeyWithinAcceptanceWindow(now, ts) with the trace's
      epoch length d, window w, grace g (microseconds, relative to the begin of an epoch):
      Monitor: ok => MaySelect(eb, ee, g, now, w, ts) and [eb, ee] is an epoch of length d.       *)
-EXTENDS DRKeyOps, Json
+EXTENDS DRKeyOps, Json, FiniteSets
 
 Trace == ndJsonDeserialize("trace.ndjson")
 
 VARIABLES t2k,    \* term -> key id
           k2t,    \* key id -> term
           undk,   \* key ids first seen in an event outside the documented scheme
+          stA, stB,  \* part "epoch": epoch begins held by A's secret-value store / B's level-1 store (model)
           cfg,    \* [d, w, g] of the current window trace
           failed, l, nsel, nsame
-vars == <<t2k, k2t, undk, cfg, failed, l, nsel, nsame>>
+vars == <<t2k, k2t, undk, stA, stB, cfg, failed, l, nsel, nsame>>
 R == Trace[l]
 
-Init == t2k = <<>> /\ k2t = <<>> /\ undk = {} /\ cfg = [d |-> 0, w |-> 0, g |-> 0] /\ failed = FALSE /\ l = 1
+Init == t2k = <<>> /\ k2t = <<>> /\ undk = {} /\ stA = {} /\ stB = {} /\ cfg = [d |-> 0, w |-> 0, g |-> 0] /\ failed = FALSE /\ l = 1
         /\ nsel = 0 /\ nsame = 0
 
 Bad(key) == PrintT(<<"VERIF-BAD", l, key>>)
 Drift(key) == PrintT(<<"VERIF-DRIFT", l, key>>)
 Put(f, k, v) == [x \in DOMAIN f \cup {k} |-> IF x = k THEN v ELSE f[x]]
 
-Reset == /\ t2k' = <<>> /\ k2t' = <<>> /\ undk' = {} /\ failed' = FALSE
+Reset == /\ t2k' = <<>> /\ k2t' = <<>> /\ undk' = {} /\ stA' = {} /\ stB' = {} /\ failed' = FALSE
          /\ cfg' = [d |-> R.d, w |-> R.w, g |-> R.g]
          /\ UNCHANGED <<nsel, nsame>>
 
@@ -58,7 +68,7 @@ TermOf(r) ==
 
 Key ==
     LET t == TermOf(R) IN
-    /\ UNCHANGED <<cfg, nsel>>
+    /\ UNCHANGED <<cfg, nsel, stA, stB>>
     /\ IF t \in DOMAIN t2k /\ t2k[t] # R.key
          THEN /\ Bad("inconsistent:" \o R.kt \o ":" \o R.who)
               /\ failed' = TRUE /\ UNCHANGED <<t2k, k2t, undk, nsame>>
@@ -71,8 +81,43 @@ Key ==
             /\ undk' = IF R.und /\ R.key \notin DOMAIN k2t THEN undk \cup {R.key} ELSE undk
             /\ UNCHANGED failed
 
+\* ---- part "epoch"
+EpochTerm(eb, ee) == "epoch(" \o ToString(eb) \o "-" \o ToString(ee) \o ")"
+HeldBy(st, t) == \E b \in st : b <= t /\ t < b + cfg.d
+L1 ==
+    LET t == EpochTerm(R.eb, R.ee)
+        modelFetch == R.who = "dst" /\ ~HeldBy(stB, R.t)
+        b == (R.t \div cfg.d) * cfg.d IN
+    /\ UNCHANGED <<undk, cfg, nsel>>
+    /\ IF ~R.ok THEN Drift("epoch:no-answer:" \o R.who) /\ UNCHANGED <<t2k, k2t, stA, stB, failed, nsame>>
+       ELSE IF ~(R.eb <= R.t /\ R.t < R.ee)
+         THEN /\ Bad("epoch:answer-not-for-requested-time:" \o R.who \o
+                     (IF R.t >= R.ee THEN ":stale" ELSE ":early"))
+              /\ failed' = TRUE /\ UNCHANGED <<t2k, k2t, stA, stB, nsame>>
+       ELSE IF t \in DOMAIN t2k /\ t2k[t] # R.key
+         THEN /\ Bad("epoch:two-keys-for-one-epoch:" \o R.who)
+              /\ failed' = TRUE /\ UNCHANGED <<t2k, k2t, stA, stB, nsame>>
+       ELSE IF R.key \in DOMAIN k2t /\ k2t[R.key] # t
+         THEN /\ Bad("epoch:one-key-for-two-epochs:" \o R.who)
+              /\ failed' = TRUE /\ UNCHANGED <<t2k, k2t, stA, stB, nsame>>
+       ELSE /\ nsame' = nsame + (IF t \in DOMAIN t2k THEN 1 ELSE 0)
+            /\ t2k' = Put(t2k, t, R.key) /\ k2t' = Put(k2t, R.key, t)
+            /\ stB' = IF modelFetch THEN stB \cup {b} ELSE stB
+            /\ stA' = IF (R.who = "src" \/ modelFetch) /\ ~HeldBy(stA, R.t) THEN stA \cup {b} ELSE stA
+            /\ UNCHANGED failed
+            /\ IF R.ee - R.eb # cfg.d \/ R.eb % cfg.d # 0 THEN Drift("epoch:not-an-aligned-epoch")
+               ELSE IF R.fetched # modelFetch THEN Drift("epoch:fetch-differs-from-model") ELSE TRUE
+
+Clean ==
+    LET liveA == {b \in stA : b + cfg.d > R.now}
+        liveB == {b \in stB : b + cfg.d > R.now} IN
+    /\ stA' = liveA /\ stB' = liveB
+    /\ UNCHANGED <<t2k, k2t, undk, cfg, failed, nsel, nsame>>
+    /\ IF R.l1 # Cardinality(stB) - Cardinality(liveB) \/ R.sv # Cardinality(stA) - Cardinality(liveA)
+         THEN Drift("epoch:clean-count-differs-from-model") ELSE TRUE
+
 Select ==
-    /\ UNCHANGED <<t2k, k2t, undk, cfg, failed, nsame>>
+    /\ UNCHANGED <<t2k, k2t, undk, stA, stB, cfg, failed, nsame>>
     /\ nsel' = nsel + (IF R.ok THEN 1 ELSE 0)
     /\ IF R.ok /\ ~(R.ee - R.eb = cfg.d /\ R.eb % cfg.d = 0) THEN Bad("select:not-an-epoch")
        ELSE IF R.ok /\ ~InEpochWithGrace(R.eb, R.ee, cfg.g, AbsTime(R.eb, R.ts))
@@ -86,12 +131,14 @@ Select ==
 Step == /\ l <= Len(Trace)
         /\ l' = l + 1
         /\ IF R.ev = "reset" THEN Reset
-           ELSE IF failed THEN UNCHANGED <<t2k, k2t, undk, cfg, failed, nsel, nsame>>
+           ELSE IF failed THEN UNCHANGED <<t2k, k2t, undk, stA, stB, cfg, failed, nsel, nsame>>
            ELSE CASE R.ev = "key" -> Key
                   [] R.ev = "select" -> Select
-                  [] R.ev = "err" -> UNCHANGED <<t2k, k2t, undk, cfg, failed, nsel, nsame>>
+                  [] R.ev = "l1" -> L1
+                  [] R.ev = "clean" -> Clean
+                  [] R.ev = "err" -> UNCHANGED <<t2k, k2t, undk, stA, stB, cfg, failed, nsel, nsame>>
                   [] OTHER -> /\ Bad("no-spec-action:" \o R.ev)
-                              /\ failed' = TRUE /\ UNCHANGED <<t2k, k2t, undk, cfg, nsel, nsame>>
+                              /\ failed' = TRUE /\ UNCHANGED <<t2k, k2t, undk, stA, stB, cfg, nsel, nsame>>
 
 Done == /\ l = Len(Trace) + 1
         /\ PrintT(<<"VERIF-STAT", "selected", nsel>>)
